@@ -47,7 +47,25 @@ FAULTS = {"runtime": InjectedFault, "oserror": InjectedOSError, "valueerror": In
 INJECTED = (InjectedFault, InjectedOSError, InjectedValueError)
 
 
+class FalsyAccepted(list):
+    """A list of accepted positions whose filter is to be a callable OBJECT that is falsy (a region set that
+    reports len() == 0, a memo whose len() is its cache size): a filter is a filter whatever bool() says."""
+
+
+class _ObjectFilter(object):
+    def __init__(self, accepted):
+        self.s = set(tuple(a) for a in accepted)
+
+    def __call__(self, tile):
+        return tuple(tile.pos) in self.s
+
+    def __len__(self):
+        return 0
+
+
 def _mk_filter(accepted):
+    if isinstance(accepted, FalsyAccepted):
+        return _ObjectFilter(accepted)
     s = set(tuple(a) for a in accepted)
 
     def tile_filter(tile):
